@@ -46,6 +46,8 @@ type CallSpec struct {
 	ViaTpl  bool   `json:"viatpl,omitempty"`
 	// Loop: the call sits inside @each(x in Loop) and is evaluated once per element;
 	// LoopArgs are extra arguments built from x (see loopArgKinds).
+	Where    string   `json:"where,omitempty"` // template calls: "" in the page, "component" in a component file, "slot" in a slot body, "insert" in a layout insert
+	Site     bool     `json:"site,omitempty"`  // template calls: the shared call site {{ x.NAME() }} of page poly_NAME (receiver type varies between renders)
 	Chain    bool     `json:"chain,omitempty"` // recv.fn(args).fn(): the result of the first call is the receiver of the second
 	Loop     []int64  `json:"loop,omitempty"`
 	LoopArgs []string `json:"loopargs,omitempty"`
@@ -250,6 +252,9 @@ func litOK(v Val) bool {
 
 // build produces the source expression and data map of a call.
 func (c CallSpec) build() (string, *Val) {
+	if c.Site {
+		return "{{ x." + c.Name + "() }}", &Val{T: "map", K: []string{"x"}, V: []Val{c.RecvVal}}
+	}
 	data := &Val{T: "map"}
 	nv := 0
 	ref := func(v Val, lit bool) string {
@@ -396,6 +401,14 @@ func genCall(r *Rng, typ, name string, viaTpl bool) CallSpec {
 		c.Args = append(c.Args, genArg(r, 2))
 		c.ArgLit = append(c.ArgLit, r.Chance(50))
 	}
+	if viaTpl && r.Chance(25) {
+		// one call site shared by renders with receivers of different types
+		return CallSpec{Recv: typ, Name: name, RecvVal: genRecv(r, typ), ViaTpl: true, Site: true}
+	}
+	if viaTpl && r.Chance(40) {
+		c.Where = Pick(r, []string{"component", "slot", "insert"})
+		return c
+	}
 	if r.Chance(15) && (name == "foo" || name == "bar") {
 		// only for names that are no built-in of any type: the chain then stays within one receiver type
 		c.Chain = true
@@ -424,10 +437,37 @@ func c20Cfg() *Cfg { return &Cfg{Dir: "templates", Ext: ".tw"} }
 func c20Files(ops []Op) []File {
 	files := []File{{Path: "/srv/app/templates/plain.tw", Data: "<p>plain</p>", Role: "page"},
 		{Path: "/srv/app/badtpl/broken.tw", Data: "<p>{{ 1 + }}</p>", Role: "page"}}
+	tp := func(name string) string { return "/srv/app/templates/" + name + ".tw" }
+	files = append(files,
+		File{Path: tp("c20wrap"), Data: "<i>@slot</i>", Role: "component"},
+		File{Path: tp("c20lay"), Data: "<html>@reserve(\"content\")</html>", Role: "layout"})
+	polys := map[string]bool{}
 	for i, op := range ops {
-		if op.Call != nil && op.Call.ViaTpl {
-			src, _ := op.Call.build()
-			files = append(files, File{Path: fmt.Sprintf("/srv/app/templates/%s%d.tw", c20Page, i), Data: "<b>" + src + "</b>", Role: "page"})
+		if op.Call == nil || !op.Call.ViaTpl {
+			continue
+		}
+		src, _ := op.Call.build()
+		if op.Call.Site {
+			if !polys[op.Call.Name] {
+				polys[op.Call.Name] = true
+				files = append(files, File{Path: tp("poly_" + op.Call.Name), Data: "<b>" + src + "</b>", Role: "page"})
+			}
+			continue
+		}
+		// the page with the call, and a reference page of the same shape that prints {{ v }} instead
+		for _, variant := range []struct{ prefix, body string }{{c20Page, src}, {"ref", "{{ v }}"}} {
+			name := fmt.Sprintf("%s%d", variant.prefix, i)
+			switch op.Call.Where {
+			case "component":
+				files = append(files, File{Path: tp(name), Data: "<b>@component(\"" + name + "_c\")</b>", Role: "page"},
+					File{Path: tp(name + "_c"), Data: "(" + variant.body + ")", Role: "component"})
+			case "slot":
+				files = append(files, File{Path: tp(name), Data: "<b>@component(\"c20wrap\")\n@slot[" + variant.body + "]@end\n@end</b>", Role: "page"})
+			case "insert":
+				files = append(files, File{Path: tp(name), Data: "@use(\"c20lay\")\n@insert(\"content\")[" + variant.body + "]@end", Role: "page"})
+			default:
+				files = append(files, File{Path: tp(name), Data: "<b>" + variant.body + "</b>", Role: "page"})
+			}
 		}
 	}
 	return files
@@ -437,6 +477,9 @@ func c20Files(ops []Op) []File {
 func callOp(i int, c CallSpec) Op {
 	src, data := c.build()
 	cc := c
+	if c.ViaTpl && c.Site {
+		return Op{Kind: "string", Name: "poly_" + c.Name, Data: data, Call: &cc}
+	}
 	if c.ViaTpl {
 		return Op{Kind: "string", Name: fmt.Sprintf("%s%d", c20Page, i), Data: data, Call: &cc}
 	}
@@ -599,8 +642,16 @@ func c20Check(sc *Scenario, acc *Acc) (*c20Fail, int) {
 						exp += ";"
 					}
 				}
-				if c.ViaTpl {
+				if c.ViaTpl && (c.Site || len(c.Loop) > 0 || c.Chain) {
 					exp = "<b>" + exp + "</b>"
+				} else if c.ViaTpl {
+					// the reference page has the same shape and prints {{ v }} where the call is
+					res := Catalogue(c.Recv, fn, copyAny(newCalls[0].Recv), copyAny([]any(newCalls[0].Args)).([]any))
+					ref, ferr := w.Tpl.String(fmt.Sprintf("ref%d", i), map[string]any{"v": res})
+					if ferr != nil {
+						return &c20Fail{"setup", "the reference page does not render", "", ferr.String()}, i
+					}
+					exp = ref
 				}
 				if o.Kind != "ok" || o.Out != exp {
 					return &c20Fail{"result-conversion", "the function's result does not appear as if that Go value had been passed as data", fmt.Sprintf("%q", exp), o.Short()}, i
@@ -678,7 +729,7 @@ func c20FilesFromOps(ops []Op) []File { return c20Files(ops) }
 // renumber keeps the page names of template calls in step with op indices.
 func renumber(sc *Scenario) {
 	for i := range sc.Ops {
-		if sc.Ops[i].Call != nil && sc.Ops[i].Call.ViaTpl {
+		if sc.Ops[i].Call != nil && sc.Ops[i].Call.ViaTpl && !sc.Ops[i].Call.Site {
 			sc.Ops[i].Name = fmt.Sprintf("%s%d", c20Page, i)
 		}
 	}
@@ -817,6 +868,40 @@ func (p c20) Run(seed uint64, run int, tier string, acc *Acc) *Violation {
 						}
 					}
 					acc.Probe("late-registration-histories", 1)
+				}
+			}
+		}
+		return first
+	}
+	if run == 3 {
+		// systematic: ONE call site {{ x.NAME() }} of a loaded template, evaluated with a receiver type for
+		// which NAME is custom-only, then with a type for which NAME is a built-in, and back
+		builtinFor := map[string]string{"abs": "int", "join": "arr", "upper": "str", "ceil": "float", "trim": "str", "len": "str", "reverse": "arr"}
+		var first *Violation
+		seen := map[string]bool{}
+		for _, typ := range c20Types {
+			for _, name := range c20Names[typ][4:] {
+				t2 := builtinFor[name]
+				if t2 == "" || t2 == typ {
+					continue
+				}
+				site := func(t string) Op {
+					return callOp(0, CallSpec{Recv: t, Name: name, RecvVal: genRecv(r, t), ViaTpl: true, Site: true})
+				}
+				for _, order := range [][]string{{typ, t2, typ}, {t2, typ, t2}} {
+					h := []Op{{Kind: "newtemplate", Cfg: c20Cfg()}, {Kind: "register", Recv: typ, Name: name, Fn: r.Intn(8)}}
+					for _, t := range order {
+						h = append(h, site(t))
+					}
+					if v := p.runHistory(seed, run, h, acc); v != nil && !seen[v.Sig] {
+						seen[v.Sig] = true
+						if first == nil {
+							first = v
+						} else {
+							acc.Viol = append(acc.Viol, v)
+						}
+					}
+					acc.Probe("polymorphic-call-site-histories", 1)
 				}
 			}
 		}
